@@ -214,7 +214,7 @@ Lemma parse_string_ok : forall cf, decode_unicode cf = true ->
     exists s', parse_quoted_string cf fuel s = (Ok, str, s') /\
                good s' /\ stream s' = tail /\ cur s' = None /\ found s' = found s.
 Proof.
-  intros cf DU t str (body & -> & J) fuel s tail G S L.
+  intros cf DU t str (body & -> & J & FIT) fuel s tail G S L.
   rewrite <- !app_assoc in S. cbn [app] in S.
   rewrite !app_length in L. cbn [length] in L.
   assert (Q : 34 <> 0) by lia.
@@ -222,7 +222,7 @@ Proof.
   unfold parse_quoted_string. rewrite E1.
   destruct (quoted_chars cf DU body str J fuel cp_init [] _ tail G1 S1 ltac:(lia))
     as (s' & E' & G' & S' & C' & F').
-  exists s'. rewrite E'. cbn [app]. splits; auto. congruence.
+  exists s'. rewrite E'. cbn [app]. rewrite (cap_string_fits _ _ FIT). splits; auto. congruence.
 Qed.
 
 Lemma parse_key_ok : forall cf, decode_unicode cf = true ->
@@ -1163,7 +1163,7 @@ Definition cex_value : jv := JObj [([97], JInt 1)].
 
 Lemma cex_key : jstring [34; 97; 34] [97].
 Proof.
-  exists [97]. split; [reflexivity|].
+  exists [97]. split; [reflexivity|]. split; [|vm_compute; discriminate].
   apply (chs_cons [97] [97] [] []); [|constructor].
   apply ch_plain; lia.
 Qed.
@@ -1312,7 +1312,7 @@ Qed.
 
 Lemma jstring_nz : forall t s, jstring t s -> nz t.
 Proof.
-  intros t s (body & -> & J). constructor; [lia|]. apply Forall_app. split.
+  intros t s (body & -> & J & _). constructor; [lia|]. apply Forall_app. split.
   - induction J as [|t1 b1 t2 b2 J1 J2 IH]; [constructor|].
     apply Forall_app. split; [eapply jchar_nz; eassumption|exact IH].
   - constructor; [lia|constructor].
